@@ -124,6 +124,10 @@ class SumAggregator:
 
             sa = condition.literal.atom.symbol
             p = Predicate(sa.name, len(sa.arguments))
+            # a global variable in the condition that the atom does not carry gives one bound per value of it
+            condition_vars = set().union(*(collect_ast(cond, "Variable") for cond in condition.condition))
+            if not global_vars.intersection(condition_vars) <= set(collect_ast(sa, "Variable")):
+                return ret
             unprojected: list[int] = []
             for index, arg in enumerate(sa.arguments):
                 local_vars = set(collect_ast(arg, "Variable"))
